@@ -158,6 +158,52 @@ def r13_2(ctx):
                    '%s happens only when a scan starts afresh' % callee if ok else
                    '%s also runs on a continuation: matches collected before the '
                    'interruption are lost' % callee)
+    # state accumulated block by block is not re-initialised on a continuation
+    if fb is not None:
+        from ..effects import Effects
+        cg = CallGraph(prog)
+        E = Effects(prog, cg)
+        T = E.transitive()
+        loop = None
+        for n in f.all_nodes():
+            if n['k'] in ('while', 'for') and not f.is_ancestor(fb, n):
+                c = f.kid(n, 0 if n['k'] == 'while' else 1)
+                if c is not None and 'block' in f.show(c) and \
+                        any(x['k'] == 'call' and x.get('callee') == '_yr_scanner_scan_mem_block'
+                            for x in f.walk(n)):
+                    loop = n
+        ctx.ob('R13.2', 'block-loop:found', loop is not None, '%s:%s' % (f.file, f.line),
+               'the loop over the memory blocks is identified' if loop is not None else
+               'no loop over the blocks calling _yr_scanner_scan_mem_block')
+        if loop is not None:
+            acc = {}
+            for n in f.walk(loop):
+                if n['k'] == 'bin' and n['op'].endswith('=') and n['op'] not in ('==', '!=', '<=', '>='):
+                    l = cu.strip_casts(f, f.kid(n, 0))
+                    if l is not None and l['k'] == 'member' and l.get('rec') == 'YR_SCAN_CONTEXT':
+                        acc.setdefault(l['fld'], f.loc(n))
+                if n['k'] == 'call' and n.get('callee'):
+                    g = prog.fn(n['callee'], f.tu)
+                    if g is not None:
+                        for e, w in T[(g.tu.name, g.name)].items():
+                            if e[0] == 'field' and e[1] == 'YR_SCAN_CONTEXT':
+                                acc.setdefault(e[2].replace('[]', '').split('.')[0], w[0].loc(w[1]))
+            ctx.require(len(acc) >= 3 or ctx.fixture, 'only %d scanner fields accumulate during the block loop' % len(acc))
+            bad = []
+            for n in f.all_nodes():
+                if n['k'] == 'bin' and n['op'] == '=' and not f.is_ancestor(loop, n) and \
+                        not f.is_ancestor(fb, n) and n.get('l', 0) < loop.get('l', 0):
+                    l = cu.strip_casts(f, f.kid(n, 0))
+                    if l is not None and l['k'] == 'member' and l.get('rec') == 'YR_SCAN_CONTEXT' \
+                            and l['fld'] in acc:
+                        bad.append((n, l['fld']))
+            ctx.ob('R13.2', 'accumulated-state:not-reset-on-continuation', not bad,
+                   f.loc(bad[0][0]) if bad else f.loc(loop),
+                   'no field that the block loop accumulates (%d fields) is assigned before the loop '
+                   'outside the fresh-scan branch' % len(acc) if not bad else
+                   'scanner->%s is (re)assigned here on every call, continuations included, although '
+                   'the block loop accumulates it (%s): what was computed before the suspension is '
+                   'lost when the scan resumes' % (bad[0][1], acc[bad[0][1]]))
     # cleanup under result != ERROR_BLOCK_NOT_READY
     cleans = [c for c in f.calls() if c.get('callee') == '_yr_scanner_clean_matches'
               and (fb is None or not f.is_ancestor(fb, c))]
@@ -226,6 +272,6 @@ def run(ctx):
     r13_1(ctx)
     ctx.floor('R13.1', 14)
     r13_2(ctx)
-    ctx.floor('R13.2', 5)
+    ctx.floor('R13.2', 7)
     r13_3(ctx)
     ctx.floor('R13.3', 8)
